@@ -110,3 +110,6 @@ def ownraw(run, P):
 def width_call(run, P):
     from rules import r_width
     r_width.run_d(run, P, units=None)
+def width_diff(run, P):
+    from rules import r_width
+    r_width.run_e(run, P)
